@@ -179,8 +179,27 @@ def regf(exclude=()):
     return reg
 
 
-def tasks():
+def _f_tasks():
     return [ContractTask(c, regf) for c in CONTRACTS]
+
+
+def select_m(name):
+    """C02's share of the machine-level obligations (mailbox-cluster engine, real tables and output bodies): an echo of our
+    own message never reaches Order, each phase string is handed on once (the dedup set never loses a phase, also across
+    reconnects), side and phase reach Order as the server message carried them, a peer message that does not decrypt
+    ends in WrongPasswordError, and nothing is delivered to the application without a successful decrypt"""
+    return name.startswith("post:C02:") or name.startswith("post:C01:") or \
+        name in ("post:C08:verdict-scary-justified", "nodom:Order.got_pake@S1_yes_pake")
+
+
+def tasks():
+    """function-level tasks plus the machine-level obligations of this property"""
+    import os
+    from pyvc.mrun import ClusterTask
+    from .mailbox_ready import CLUSTER_READY
+    if not CLUSTER_READY or os.environ.get("VERIF_NO_CLUSTER"):
+        return _f_tasks()
+    return _f_tasks() + [ClusterTask("mailbox-cluster", "props.mailbox", "engine", select_m, "mailbox_history:search")]
 
 
 TRUSTED = ["z3/cvc5", "pyvc semantics of the Python subset (bytes as code-point strings, sets/dicts as arrays)"] + \
@@ -191,7 +210,8 @@ ASSUMPTIONS = [
     "AEAD strength (that nobody without the key produces an accepted ciphertext) is cryptographic: what is proved is which "
     "key every delivered plaintext was authenticated under",
     "lemma label_determines_key assumes, for its arguments, sha256 collision freedom and that HKDF separates different info strings",
-    "Automat inputs called inside the functions are boundaries here (recorded, not dispatched): the transition tables "
-    "(e.g. that rx_message_ours never reaches Order, that got_message_bad leads to scared) belong to the machine-level engine",
+    "Automat inputs called inside the function-level contracts are boundaries (recorded, not dispatched); which output runs in "
+    "which state is decided by the machine-level obligations post:C02:* / post:C01:* over the real transition tables "
+    "(mailbox-cluster engine, environment contract E1-E5 of DESIGN 3.3)",
     "Boss.W_received requires the class invariant '_next_rx_phase not in _rx_phases' (it re-establishes it)",
 ]
